@@ -9,6 +9,22 @@ import tlc
 PROP = "C15"
 
 
+def inductive(wd):
+    import subprocess
+    adir = os.path.join(tlc.SPEC, "apalache")
+    outs = []
+    for init, length in (("Init", 0), ("IndInit", 1)):
+        p = subprocess.run(["timeout", "1500", "apalache-mc", "check", "--cinit=ConstInit", "--init=" + init, "--inv=IndInv",
+                            "--length=%d" % length, "--out-dir=" + os.path.join(wd, "apalache"), "NunPendingInd.tla"],
+                           cwd=adir, stdout=subprocess.PIPE, stderr=subprocess.STDOUT)
+        out = p.stdout.decode(errors="replace")
+        if "The outcome is: NoError" not in out:
+            raise common.ToolError("Apalache: IndInv of NunPendingInd not established (%s, length %d):\n%s"
+                                   % (init, length, out[-2000:]))
+        outs.append("%s/length %d: NoError" % (init, length))
+    return outs
+
+
 def run(tier, seed):
     res = common.Result(PROP, tier, seed, "model_checking")
     wd = common.workdir(PROP)
@@ -19,6 +35,8 @@ def run(tier, seed):
     if "No error has been found" not in out:
         raise common.ToolError("NunPending did not complete cleanly:\n" + out[-3000:])
     gen, distinct = tlc.stats(out)
+    # histories of any length: the inductive invariant of the same accounting (counters unbounded), by Apalache
+    ind = inductive(wd)
     cases = [{"id": "m%d" % i, "steps": h} for i, h in enumerate(tlc.extract_cases(out))]
     n_model = len(cases)
     rnd = random.Random(seed)
@@ -41,6 +59,8 @@ def run(tier, seed):
                                 "/dev/null", wd, {c["id"]: c for c in cases})
     res.coverage.update({
         "states": distinct, "transitions": gen, "model": "NunPending.tla/" + cfg,
+        "inductive_invariant": {"module": "spec/apalache/NunPendingInd.tla", "tool": "apalache-mc 0.58", "obligations": ind,
+                                "constants": "2 operations x 3 nodes, counters and history length unbounded"},
         "traces_validated_against_impl": outv["runs"], "events_validated": outv["events"],
         "model_generated_cases": n_model, "random_cases": len(cases) - n_model,
         "samples": [cases[n_model // 2]["steps"], cases[-1]["steps"][:10]],
